@@ -243,3 +243,74 @@ def gen_c10_runs(rng: Rng, mb, n):
                     'unbinds': [[side, ev, cl]]})
         runs.append(run)
     return runs
+
+
+# ------------------------------------------------------------------------------------------------ C04
+def gen_c04_run(rng: Rng, mb, rid, faulty):
+    """Sequential history on a multi-client port: ONE driver task issues claim / release / other in-events on behalf
+    of 1-4 registered clients and raises requires out-events; the dispatcher is the only other task.  The scripted
+    component is an exclusive arbiter and reacts by raising out-events on the multi-client port.
+    faulty: rogue releases by non-holders and denied claims are part of the history."""
+    run = new_run(rid, mb.cfgspec['origin'])
+    mc = mb.mc
+    ports, events = mb.ports, mb.events
+    oc, ic, ih, oh = classify_events(ports, events)
+    n_clients = rng.between(1, 4)
+    run['clients'] = n_clients
+    run['parent'] = rng.below(2)
+    mc_out = list(mc['out_events'])
+    others = list(mc['other_in'])
+    other_ports_in = [e['idx'] for e in oc if ports[e['port']]['dir'] == 'provides' and ports[e['port']]['sem'] != 'MC']
+    peer_events = [e['idx'] for e in oc if ports[e['port']]['dir'] == 'requires']
+    ops = []
+    holder = None   # the generator's own idea of the holder, only used to bias the history
+    for _ in range(rng.between(5, 40)):
+        kind = rng.weighted([(5, 'claim'), (4, 'release'), (4, 'other'), (3, 'otherport'), (4, 'peer'), (2, 'idle')])
+        if kind == 'claim':
+            x = rng.below(n_clients)
+            if not faulty and holder is not None:
+                continue
+            ops.append(['O', mc['claim'], x])
+            if holder is None:
+                holder = x
+        elif kind == 'release':
+            if holder is None and not faulty:
+                continue
+            x = holder if (holder is not None and (not faulty or rng.chance(60))) else rng.below(n_clients)
+            ops.append(['O', mc['release'], x])
+            if x == holder:
+                holder = None
+        elif kind == 'other' and others:
+            x = holder if (holder is not None and rng.chance(80)) else rng.below(n_clients)
+            ops.append(['O', rng.choice(others), x])
+        elif kind == 'otherport' and other_ports_in:
+            ops.append(['O', rng.choice(other_ports_in), 0])
+        elif kind == 'peer' and peer_events:
+            ops.append(['O', rng.choice(peer_events), -1])
+            if rng.chance(60):
+                ops.append(['W', rng.between(1, 6)])
+        else:
+            ops.append(['W', rng.between(1, 5)])
+    run['tasks'] = [{'name': 'drv', 'ops': ops}]
+    scripts = []
+    for e in ih:
+        is_claim = e['idx'] == mc['claim']
+        is_release = e['idx'] == mc['release']
+        for _ in range(rng.between(1, 3)):
+            follow = []
+            if mc_out and rng.chance(25 if (is_claim or is_release) else 75):
+                follow = [rng.choice(mc_out) for _ in range(rng.between(1, 2))]
+            wish = 1 if (not faulty or rng.chance(75)) else 0
+            scripts.append([1, e['idx'], reply_value(rng, e) if not is_claim else rng.below(8), wish, follow])
+    for e in oh:
+        scripts.append([0, e['idx'], reply_value(rng, e), 1, []])
+    run['scripts'] = scripts
+    run['faulty'] = faulty
+    est = 40 * len(ops) + 50
+    random_sched(rng, run, est)
+    run['budget'] = 6000 + 600 * len(ops)
+    return run
+
+
+def gen_c04_runs(rng: Rng, mb, n):
+    return [gen_c04_run(rng.fork('h', i), mb, f"{'f' if i % 2 else 'n'}{i}", faulty=bool(i % 2)) for i in range(n)]
